@@ -3,7 +3,11 @@
 Correspondence: exhaustive operator tables over a small reference domain, version tables
 built through PluginGroup._add_ep and register_in_group in every registration order,
 entry-point name codec, version-less class handles — real code vs. extracted Gallina model
-(coq/Util/PluginRef.v).  Oracle for the failing-input search: the order axioms, the
+(coq/Util/PluginRef.v).  Codec part additionally against coq/Util/EpName.v (the regular
+expressions of plugin/types.py as terms + derivative matcher, literal from_ep_name/to_ep_name):
+(name, version) pairs with valid and near-miss names and numerals up to CPython's conversion
+limit, and arbitrary well- and malformed strings (acceptance by QUAL_NAME / SemVerStr / EPName,
+decoded value or refusal, re-encoding of canonical names).  Oracle for the failing-input search: the order axioms, the
 supports formula and "ascending, complete, newest compatible" evaluated on the code alone.
 """
 from __future__ import annotations
@@ -120,6 +124,65 @@ def impl_epname(case) -> Any:
     return [str(ep), [[str(back[0]), [str(x) for x in back[1]]]]]
 
 
+def _wire(s: str) -> str:
+    """Python str -> the byte string the model sees (UTF-8 bytes as latin-1 characters)."""
+    return s.encode("utf-8").decode("latin-1")
+
+
+def impl_epmk(case) -> Any:
+    """case = (name, version): [to_ep_name result or refusal, from_ep_name of it]."""
+    from metador_core.plugin.types import from_ep_name, to_ep_name
+    n, v = case
+    try:
+        ep = to_ep_name(n, tuple(v))
+    except TypeError:
+        return [[], "refused"]
+    if not isinstance(ep, str):
+        return ["to_ep_name-returned-non-str"]
+    try:
+        back = from_ep_name(ep)
+    except (TypeError, ValueError):
+        return [[_wire(str(ep))], []]
+    return [[_wire(str(ep))], [_back_out(back)]]
+
+
+def _back_out(back) -> Any:
+    n, v = back
+    if not (isinstance(n, str) and isinstance(v, tuple) and len(v) == 3
+            and all(type(x) is int for x in v)):
+        return ["ill-typed", repr(back)[:80]]
+    return [_wire(str(n)), [str(x) for x in v]]
+
+
+def impl_epstr(s: str) -> Any:
+    """[QUAL_NAME fullmatch, SemVerStr accepts, EPName accepts, from_ep_name result or refusal,
+    to_ep_name(*from_ep_name(s)) == s (None when not applicable)]."""
+    import re
+    from metador_core.plugin import types as T
+
+    def accepts(cls):
+        try:
+            cls(s)
+            return True
+        except TypeError:
+            return False
+    vq = re.fullmatch(T.QUAL_NAME, s) is not None
+    vs, ve = accepts(T.SemVerStr), accepts(T.EPName)
+    again = None
+    try:
+        back = T.from_ep_name(s)
+    except (TypeError, ValueError):
+        out = []
+    else:
+        out = [_back_out(back)]
+        if ve:
+            try:
+                again = str(T.to_ep_name(*back)) == s
+            except TypeError:
+                again = "refused"
+    return [vq, vs, ve, out, again]
+
+
 def impl_subclass(case) -> Any:
     """case = (group, plugin name, versioned?) -> result of deriving a class from the handle."""
     from metador_core.plugins import plugingroups
@@ -171,6 +234,14 @@ def w_epname(c):
 
 def w_subclass(c):
     return _guard(impl_subclass, c)
+
+
+def w_epmk(c):
+    return _guard(impl_epmk, c)
+
+
+def w_epstr(c):
+    return _guard(impl_epstr, c)
 
 
 # ---------------------------------------------------------------------------- oracles (code only)
@@ -306,6 +377,119 @@ def gen_names(ctx, n) -> List[str]:
     return out
 
 
+def gen_versions(ctx, n) -> List[List[int]]:
+    """Version triples: small, >= 10 in every position, >= 2**64, hundreds of digits."""
+    rng = ctx.rng
+    pool = [0, 1, 2, 7, 9, 10, 11, 19, 99, 100, 101, 1000, 2**31, 2**63, 2**64, 2**64 + 1, 10**30, 10**100 - 1]
+    out = [[0, 0, 0], [10, 10, 10], [1, 2, 10], [1, 2, 19], [1, 2, 100], [2**64, 2**64, 2**64], [10, 0, 2**64]]
+    while len(out) < n:
+        v = []
+        for _ in range(3):
+            r = rng.random()
+            if r < 0.55:
+                v.append(rng.choice(pool))
+            elif r < 0.9:
+                v.append(rng.randrange(10 ** rng.randint(1, 40)))
+            else:
+                v.append(rng.randrange(10 ** rng.randint(41, 400)))
+        out.append(v)
+    return out
+
+
+MUT_ALPHABET = ["a", "z", "b", "0", "9", "_", "-", ".", "__", "A", "Z", " ", "\n", "+", "/", "\u00e9", "\u0661", "1", "00"]
+
+
+def gen_bad_names(ctx, names, n) -> List[str]:
+    """Near misses of valid qualified names (most invalid; validity is decided by model and code)."""
+    rng = ctx.rng
+    out = ["", "a", "a.bb", "aa.b", "a_b", "ab_", "ab-", "ab__cd", "ab_-cd", "ab-_cd", "ab--cd", "AA", "aA", "1a",
+           "a1", "aa.", ".aa", "aa..bb", "aa bb", "aa\n", "\naa", "aa__1.2.3", "_aa", "-aa", "aa._b", "aa.1b",
+           "\u00e9\u00e9", "aa.\u00e9b", "a_", "ab_c_", "ab.cd_", "ab_.cd", "ab._cd", "ab___cd", "ab_c__d"]
+    while len(out) < n:
+        s = rng.choice(names)
+        for _ in range(rng.randint(1, 2)):
+            i = rng.randrange(len(s) + 1)
+            op = rng.random()
+            if op < 0.45:
+                s = s[:i] + rng.choice(MUT_ALPHABET) + s[i:]
+            elif op < 0.75 and s:
+                i = min(i, len(s) - 1)
+                s = s[:i] + rng.choice(MUT_ALPHABET) + s[i + 1:]
+            elif s:
+                i = min(i, len(s) - 1)
+                s = s[:i] + s[i + 1:]
+        out.append(s)
+    return out
+
+
+def gen_ep_strings(ctx, names, bad_names, n) -> List[str]:
+    """Candidate entry-point name strings: canonical, with leading zeros, with wrong numbers of parts,
+    empty parts, non-digits, several/odd separators, mutated."""
+    rng = ctx.rng
+    out = ["aa__1.2.3", "aa__01.002.3", "aa__00.0.0", "aa__0.0.0", "aa__1.2", "aa__1.2.3.4", "aa__1..3", "aa__.2.3",
+           "aa__1.2.", "aa__1.2.3__", "aa__bb__1.2.3", "aa", "aa__", "__1.2.3", "AA__1.2.3", "a__1.2.3", "a_b__1.2.3",
+           "aa___1.2.3", "aa____1.2.3", "aa_____1.2.3", "aa__1.2.x", "aa__ 1.2.3", "aa__1.2.3\n", "aa__+1.2.3",
+           "aa__1_0.2.3", "aa__\u0661.2.3", "aa__-1.2.3", "aa__1.2.3 ", "", "x y__1.2.3", "aa_._1.2.3", "\u00e9__1.2.3",
+           "aa_1.2.3", "aa__1.2.3_", "aa__1.2._3", "aa__1__2.3", "ab___1.2.3", "ab-__1.2.3", "aa.bb__10.20.30",
+           "aa__1.2.10", "aa__1.2.19", "aa__1.2.010", "_", "__", "___", "____", "aa__1.2.3__4.5.6", "1.2.3", "__",
+           "aa__" + "9" * 300 + ".0." + "1" + "0" * 200, "aa__0" + "9" * 100 + ".0.0"]
+    vers = gen_versions(ctx, 60)
+    while len(out) < n:
+        r = rng.random()
+        nm = rng.choice(names) if rng.random() < 0.8 else rng.choice(bad_names)
+        v = rng.choice(vers)
+        nums = [str(x) for x in v]
+        if r < 0.25:
+            s = nm + "__" + ".".join(nums)
+        elif r < 0.40:
+            k = rng.randrange(3)
+            nums[k] = "0" * rng.randint(1, 3) + nums[k]
+            s = nm + "__" + ".".join(nums)
+        elif r < 0.55:
+            parts = nums[:rng.choice([0, 1, 2])] if rng.random() < 0.5 else nums + [str(rng.randrange(20))]
+            if rng.random() < 0.3 and parts:
+                parts[rng.randrange(len(parts))] = ""
+            s = nm + rng.choice(["__", "__", "_", "___", "____", "-_", ""]) + ".".join(parts)
+        else:
+            s = nm + "__" + ".".join(nums)
+            for _ in range(rng.randint(1, 2)):
+                i = rng.randrange(len(s) + 1)
+                if rng.random() < 0.6:
+                    s = s[:i] + rng.choice(MUT_ALPHABET) + s[i:]
+                elif s:
+                    i = min(i, len(s) - 1)
+                    s = s[:i] + rng.choice(MUT_ALPHABET) + s[i + 1:]
+        out.append(s)
+    return out
+
+
+def _canonical_numeral(t: str) -> bool:
+    return t == "0" or (t != "" and t[0] != "0")
+
+
+def oracle_epstr(s: str, got) -> List[str]:
+    """Codec clause evaluated on the code alone, for one string s."""
+    vq, vs, ve, out, again = got
+    probs = []
+    if out and out[0][0] == "ill-typed":
+        probs.append(f"from_ep_name({s!r}) returned an ill-typed value {out[0][1]}")
+        return probs
+    if ve:
+        # a string the code itself declares a valid entry-point name must decode ...
+        if not out:
+            probs.append(f"from_ep_name refuses the valid entry-point name {s!r}")
+            return probs
+        name, ver = out[0]
+        head, _, tail = s.rpartition("__")
+        nums = tail.split(".")
+        # ... to exactly its name and the values of its three numerals
+        if name != _wire(head) or ver != [str(int(t)) for t in nums]:
+            probs.append(f"from_ep_name({s!r}) = {out[0]}, expected ({head!r}, {[int(t) for t in nums]})")
+        elif all(_canonical_numeral(t) for t in nums) and again is not True:
+            probs.append(f"to_ep_name(*from_ep_name({s!r})) does not give the canonical name back ({again})")
+    return probs
+
+
 # ---------------------------------------------------------------------------- main
 
 def run(ctx: vlib.Ctx):
@@ -314,6 +498,10 @@ def run(ctx: vlib.Ctx):
     cov["trusted_base"] = vlib.TRUSTED_COMMON + [
         "modelled, not verified: CPython str/tuple comparison (ASCII strings, modelled as lexicographic code-point order), "
         "functools.total_ordering's derivations from __ge__/__eq__, dict insertion order, list.sort stability, pydantic field parsing of PluginRef",
+        "modelled, not verified (codec): Python's re.fullmatch / phantom FullMatch on the four expressions of plugin/types.py "
+        "(modelled as membership in the regular language, decided by a derivative matcher proved correct against the standard "
+        "semantics, C16_fullmatch_spec), str.split(sep), int() and str() of non-negative integers (decimal, Coq's DecimalString), "
+        "f-string concatenation; str compared as UTF-8 bytes",
     ]
     disagreements: List[Dict[str, Any]] = []
     evals = 0
@@ -406,6 +594,77 @@ def run(ctx: vlib.Ctx):
                           sig_obj={"kind": "epname"})
     ctx.sample({"case": ["epname", ep_cases[3][0], *ep_cases[3][1]], "model": m_ep[3]})
 
+    # ---- 3b. codec against the regular expressions of the source (coq/Util/EpName.v):
+    #      (name, version) pairs with valid and near-miss names, long numerals; arbitrary strings
+    bad_names = gen_bad_names(ctx, names, ctx.budget(250, 2000))
+    big_vers = gen_versions(ctx, ctx.budget(80, 400))
+    mk_cases = [(nm, ctx.rng.choice(big_vers)) for nm in names] + [(nm, ctx.rng.choice(big_vers)) for nm in bad_names]
+    limit = _int_str_limit()
+    if limit:
+        mk_cases.append(("aa.bb", [10 ** (limit - 1) - 1, 0, 10 ** (limit - 1)]))   # longest numerals CPython converts
+    n_valid_gen = len(names)
+    m_mk = vlib.run_model("c16e", [["epmk", _wire(nm).encode("latin-1"), *v] for nm, v in mk_cases])
+    i_mk = vlib.pmap(w_epmk, mk_cases, chunksize=64)
+    evals += len(mk_cases)
+    n_refused = 0
+    for k, ((nm, v), want, (st, got)) in enumerate(zip(mk_cases, m_mk, i_mk)):
+        exp_ep = f"{nm}__{v[0]}.{v[1]}.{v[2]}"
+        if st == "ok" and got == [[], "refused"]:
+            n_refused += 1
+            got_cmp = [[], []]
+        else:
+            got_cmp = got
+        want_cmp = want if want[0] else [[], []]
+        if st != "ok" or got_cmp != want_cmp:
+            if len(disagreements) < 20:
+                disagreements.append({"kind": "epmk", "name": nm, "ver": [str(x) for x in v], "model": _short(want), "impl": _short(got)})
+        # oracle: generated-valid names (and the boundary case) must round-trip exactly
+        if k < n_valid_gen or k == len(mk_cases) - 1 and limit:
+            ok = st == "ok" and got == [[_wire(exp_ep)], [[_wire(nm), [str(x) for x in v]]]]
+            if not ok and not ep_reported:
+                ep_reported = True
+                ctx.violation(f"entry-point name codec loses information for {nm!r} {_short(v)}: {_short(got)}",
+                              {"kind": "epname", "name": nm, "ver": v, "impl": _short(got)},
+                              sig_obj={"kind": "epname"})
+        elif st == "ok" and got[0]:
+            # a name the code accepted although not generated as valid: still must round-trip
+            if got != [[_wire(exp_ep)], [[_wire(nm), [str(x) for x in v]]]] and not ep_reported:
+                ep_reported = True
+                ctx.violation(f"entry-point name codec loses information for accepted name {nm!r} {_short(v)}: {_short(got)}",
+                              {"kind": "epname", "name": nm, "ver": v, "impl": _short(got)},
+                              sig_obj={"kind": "epname"})
+    ctx.sample({"case": ["epmk", mk_cases[5][0], *mk_cases[5][1]], "model": m_mk[5]})
+
+    ep_strings = gen_ep_strings(ctx, names, bad_names, ctx.budget(1500, 12000)) + names[:60] + bad_names[:120]
+    st_cases = [["epstr", _wire(s).encode("latin-1")] for s in ep_strings]
+    m_st = vlib.run_model("c16e", st_cases)
+    i_st = vlib.pmap(w_epstr, ep_strings, chunksize=64)
+    evals += len(ep_strings)
+    str_reported = False
+    n_accept = n_noncanon = n_decoded = 0
+    for s_, want, (st, got) in zip(ep_strings, m_st, i_st):
+        m_vq, m_vs, m_ve, m_canon, m_py, m_pr = want
+        bad = st != "ok"
+        if not bad:
+            vq, vs, ve, out, again = got
+            n_accept += ve
+            n_decoded += bool(out)
+            bad = ([_tf(vq), _tf(vs), _tf(ve)] != [m_vq, m_vs, m_ve] or out != m_py or m_py != m_pr
+                   or (ve and again is not None and _tf(again is True) != m_canon))
+            if ve and again is False:
+                n_noncanon += 1
+        if bad and len(disagreements) < 20:
+            disagreements.append({"kind": "epstr", "string": s_, "model": _short(want), "impl": _short(got)})
+        probs = [f"raised {got}"] if st != "ok" else oracle_epstr(s_, got)
+        if probs and not str_reported:
+            str_reported = True
+            ctx.violation(f"entry-point name codec: {probs[0][:300]}",
+                          {"kind": "epstr", "string": s_, "problems": [p[:300] for p in probs[:3]]},
+                          sig_obj={"kind": "epstr"})
+    ctx.sample({"case": ["epstr", ep_strings[1]], "model": m_st[1]})
+    xc3 = vlib.coq_crosscheck("c16e", st_cases[:400] + [["epmk", nm, *v] for nm, v in mk_cases[:60] if nm.isascii()],
+                              m_st[:400] + [m for (nm, v), m in zip(mk_cases[:60], m_mk) if nm.isascii()], "c16ep", max_cases=40)
+
     # ---- 4. version-less handles
     plugins = vlib.pmap(list_plugins, [None, None], procs=2)[0]
     sub_cases = [(g, p, v) for (g, p) in plugins for v in (True, False)]
@@ -432,13 +691,22 @@ def run(ctx: vlib.Ctx):
     cov["input_distribution"] = {"refs": n, "ref_pairs": n * n, "reg_cases": len(reg_cases),
                                  "reg_sizes": _hist(len(c[0]) for c in reg_cases),
                                  "epnames": len(ep_cases), "subclass_cases": len(sub_cases)}
-    cov["coq_crosscheck"] = {"cmp": xc, "reg": xc2}
+    cov["coq_crosscheck"] = {"cmp": xc, "reg": xc2, "codec": xc3}
+    cov["codec"] = {"name_version_pairs": len(mk_cases), "of_which_refused_names": n_refused,
+                    "strings": len(ep_strings), "accepted_as_EPName": n_accept, "decoded": n_decoded,
+                    "noncanonical_EPNames_not_reproduced (leading zeros; observation, C16_epname_inverse)": n_noncanon,
+                    "max_numeral_digits": max(len(str(x)) for _, v in mk_cases for x in v),
+                    "int_max_str_digits": limit}
     cov["disagreements"] = len(disagreements)
-    ctx.assumptions += ["strings are ASCII", "registered versions of one name are distinct"]
+    ctx.assumptions += ["strings are ASCII (codec part: any str, compared as UTF-8 bytes)",
+                        "registered versions of one name are distinct",
+                        f"version numerals have at most {limit or 'unbounded'} decimal digits (CPython's default int/str "
+                        "conversion limit, sys.get_int_max_str_digits(); beyond it to_semver_str/from_semver_str raise "
+                        "ValueError; the model's numerals are unbounded)"]
 
-    if not xc["ok"] or not xc2["ok"]:
+    if not xc["ok"] or not xc2["ok"] or not xc3["ok"]:
         ctx.violation("extracted runner and in-Coq evaluation of the model disagree (stale or wrong extraction)",
-                      {"kind": "crosscheck", "cmp": xc, "reg": xc2}, found_input=False)
+                      {"kind": "crosscheck", "cmp": xc, "reg": xc2, "codec": xc3}, found_input=False)
     if not proof["ok"]:
         ctx.violation("proof obligations of Properties/C16.v do not check: " + "; ".join(proof["problems"])[:500],
                       {"kind": "proof", "theorem_file": "coq/Properties/C16.v", "problems": proof["problems"]},
@@ -453,6 +721,21 @@ def run(ctx: vlib.Ctx):
     # generated tie: PluginRef.__eq__/__ge__/__hash__/supports and the entry-point name codec are
     # re-translated from the current source and proved equal to the model (coq/Gen/Equiv_*.v)
     gentie.report(ctx)
+
+
+def _tf(b) -> str:
+    return "T" if b else "F"
+
+
+def _short(x, n=160):
+    r = repr(x)
+    return x if len(r) <= n else r[:n] + "..."
+
+
+def _int_str_limit() -> int:
+    import sys
+    get = getattr(sys, "get_int_max_str_digits", None)
+    return int(get()) if get else 0
 
 
 def _hist(it):
@@ -502,6 +785,19 @@ def replay(rep) -> int:
         print(st, got)
         ok = st == "ok" and got[1] == [[rep["name"], [str(x) for x in rep["ver"]]]]
         return 0 if ok else 1
+    if kind == "epnoncanon":
+        # observation (not reported by run): a string accepted as EPName that decode+encode does not reproduce
+        st, got = _guard(impl_epstr, rep["string"])
+        print(st, got)
+        bad = st == "ok" and got[2] and got[4] is not True
+        print("accepted as EPName but not reproduced" if bad else "refused or reproduced")
+        return 1 if bad else 0
+    if kind == "epstr":
+        st, got = _guard(impl_epstr, rep["string"])
+        print(st, got)
+        probs = [f"raised {got}"] if st != "ok" else oracle_epstr(rep["string"], got)
+        print("\n".join(probs) if probs else "no longer failing")
+        return 1 if probs else 0
     if kind == "subclass":
         st, got = _guard(impl_subclass, rep["bases_versioned"])
         print(st, got)
